@@ -1,4 +1,4 @@
-(* GENERATED by harness/gen/gen_c11_code.py from /repo -- do not edit *)
+(* GENERATED *)
 From Coq Require Import NArith List Bool.
 Import ListNotations.
 From PydoctorVerif Require Import Base.Sexp Model.Site Model.SiteIR.
@@ -13,15 +13,15 @@ Definition code_Documentable_privacyClass : istmt :=
 
 (* pydoctor/model.py Module.privacyClass *)
 Definition code_Module_privacyClass : istmt :=
-  SSeq (SIf (ENe (EName (ESelf)) (EConst (VStr [95; 95; 109; 97; 105; 110; 95; 95]%N))) (SReturn (ESuperPrivacy)) (SSkip)) (SReturn (EConst (VPriv PRIVATE))).
+  SIf (EEq (EName (ESelf)) (EConst (VStr [95; 95; 109; 97; 105; 110; 95; 95]%N))) (SReturn (EConst (VPriv PRIVATE))) (SReturn (ESuperPrivacy)).
 
 (* pydoctor/model.py Documentable.isVisible *)
 Definition code_Documentable_isVisible : istmt :=
-  SSeq (SIf (EIs (ECall FPrivacy (ESelf)) (EConst (VPriv HIDDEN))) (SReturn (EConst (VBool false))) (SSkip)) (SSeq (SAssign 0 (EParentOf (ESelf))) (SSeq (SIf (ENot (EVar 0)) (SReturn (EConst (VBool true))) (SSkip)) (SReturn (ECall FIsVisible (EVar 0))))).
+  SSeq (SAssign 0 (EIsNot (ECall FPrivacy (ESelf)) (EConst (VPriv HIDDEN)))) (SSeq (SIf (EAnd (EVar 0) (EParentOf (ESelf))) (SAssign 0 (ECall FIsVisible (EParentOf (ESelf)))) (SSkip)) (SReturn (EVar 0))).
 
 (* pydoctor/model.py Documentable.isPrivate *)
 Definition code_Documentable_isPrivate : istmt :=
-  SSeq (SAssign 0 (ECall FPrivacy (ESelf))) (SReturn (ENot (EIs (EVar 0) (EConst (VPriv PUBLIC))))).
+  SReturn (EIsNot (ECall FPrivacy (ESelf)) (EConst (VPriv PUBLIC))).
 
 (* pydoctor/model.py Documentable.page_object *)
 Definition code_Documentable_page_object : istmt :=
@@ -33,7 +33,7 @@ Definition code_Documentable_url : istmt :=
 
 (* pydoctor/linker.py taglink(o, page_url, label): parameters page_url = variable 0, label = variable 1 *)
 Definition code_taglink : istmt :=
-  SSeq (SIf (EIs (EVar 1) (EConst VNone)) (SAssign 1 (ECall FFullName (ESelf))) (SSkip)) (SSeq (SIf (ENot (ECall FIsVisible (ESelf))) (SSeq (SLog) (SReturn (ETagPlain (EVar 1)))) (SSkip)) (SSeq (SAssign 2 (ECall FUrl (ESelf))) (SSeq (SIf (EAnd (EVar 0) (EStartsWith (EVar 2) (EConcat [EVar 0; EConst (VStr [35]%N)]))) (SAssign 2 (ESkipLen (EVar 2) (EVar 0))) (SSkip)) (SSeq (SAssign 3 (ETagA (EVar 1) (EVar 2))) (SSeq (SIf (ENe (EVar 1) (ECall FFullName (ESelf))) (SAssign 3 (ETagTitle (EVar 3) (ECall FFullName (ESelf)))) (SSkip)) (SReturn (EVar 3))))))).
+  SSeq (SIf (EIs (EVar 1) (EConst VNone)) (SAssign 1 (ECall FFullName (ESelf))) (SSkip)) (SSeq (SIf (ENot (ECall FIsVisible (ESelf))) (SSeq (SLog) (SReturn (ETagPlain (EVar 1)))) (SSkip)) (SSeq (SAssign 2 (ECall FUrl (ESelf))) (SSeq (SIf (EAnd (EVar 0) (EStartsWith (EVar 2) (EConcat [EVar 0; EConst (VStr [35]%N)]))) (SAssign 2 (ESlice (EVar 2) (Some (ELen (EVar 0))) (None))) (SSkip)) (SSeq (SAssign 3 (ETagA (EVar 1) (EVar 2))) (SSeq (SIf (ENe (EVar 1) (ECall FFullName (ESelf))) (SAssign 3 (ETagTitle (EVar 3) (ECall FFullName (ESelf)))) (SSkip)) (SReturn (EVar 3))))))).
 
 Definition site_code (f : fname) : istmt :=
   match f with
@@ -46,3 +46,4 @@ Definition site_code (f : fname) : istmt :=
   | FUrl => code_Documentable_url
   | FTaglink => code_taglink
   end.
+
